@@ -508,6 +508,70 @@ class Scan(Generic[Carry, Y], GenerativeFunction[tuple[Carry, Y]]):
             VectorRequest(bwd_constraints),
         )
 
+    def edit_vector(
+        self,
+        key: PRNGKey,
+        trace: ScanTrace[Carry, Y],
+        request: EditRequest,
+        argdiffs: Argdiffs,
+    ) -> tuple[ScanTrace[Carry, Y], Weight, Retdiff[tuple[Carry, Y]], EditRequest]:
+        # `request` holds one request per iteration, stacked along the leading axis
+        # (this is the backward request returned by `edit_regenerate`).
+        diffs = Diff.unknown_change(Diff.tree_primal(argdiffs))
+        carry_diff: Carry = diffs[0]
+        scanned_in_diff: Any = diffs[1:]
+
+        def _edit(
+            carry: tuple[PRNGKey, IntArray, Carry],
+            scanned_over: tuple[Trace[tuple[Carry, Y]], EditRequest, Any],
+        ) -> tuple[
+            tuple[PRNGKey, IntArray, Carry],
+            tuple[Trace[tuple[Carry, Y]], Retdiff[Y], Score, Weight, EditRequest],
+        ]:
+            key, idx, carried_value = carry
+            subtrace, subrequest, scanned_in = scanned_over
+            key = jax.random.fold_in(key, idx)
+            new_subtrace, w, kernel_retdiff, bwd_request = subrequest.edit(
+                key,
+                subtrace,
+                (carried_value, scanned_in),
+            )
+            (carry_retdiff, scanned_out_retdiff) = Diff.unknown_change(kernel_retdiff)
+            return (key, idx + 1, carry_retdiff), (
+                new_subtrace,
+                scanned_out_retdiff,
+                new_subtrace.get_score(),
+                w,
+                bwd_request,
+            )
+
+        (
+            (_, _, carried_out_diff),
+            (new_subtraces, scanned_out_diff, scores, ws, bwd_requests),
+        ) = jax.lax.scan(
+            _edit,
+            (key, jnp.asarray(0), carry_diff),
+            (trace.inner, request, *scanned_in_diff),
+            length=self.length,
+        )
+        carried_out, scanned_out = Diff.tree_primal((
+            carried_out_diff,
+            scanned_out_diff,
+        ))
+        return (
+            ScanTrace.build(
+                self,
+                new_subtraces,
+                Diff.tree_primal(argdiffs),
+                (carried_out, scanned_out),
+                jnp.sum(scores),
+                trace.scan_length,
+            ),
+            jnp.sum(ws),
+            (carried_out_diff, scanned_out_diff),
+            VectorRequest(bwd_requests),
+        )
+
     def edit_update(
         self,
         key: PRNGKey,
@@ -632,6 +696,13 @@ class Scan(Generic[Carry, Y], GenerativeFunction[tuple[Carry, Y]]):
                     trace,
                     idx,
                     subrequest,
+                    argdiffs,
+                )
+            case VectorRequest(request):
+                return self.edit_vector(
+                    key,
+                    trace,
+                    request,
                     argdiffs,
                 )
             case _:
